@@ -2,6 +2,7 @@ package main
 
 import (
 	"encoding/hex"
+	"math"
 
 	"verifh/cmd/c09/tv"
 	"verifh/lib"
@@ -39,10 +40,19 @@ func genVal(g *lib.Rand, flavour int) tv.V {
 func genCmp(g *lib.Rand, flavour int) *Cmp {
 	switch g.Pick(22, 18, 14, 12, 8, 14, 12) {
 	case 0:
+		if g.Chance(30) {
+			return &Cmp{Kind: "nil"}
+		}
 		return &Cmp{Kind: "default"}
 	case 1:
+		if g.Chance(45) {
+			return &Cmp{Kind: "lt_truthy"}
+		}
 		return &Cmp{Kind: "lt"}
 	case 2:
+		if g.Chance(45) {
+			return &Cmp{Kind: "gt_truthy"}
+		}
 		return &Cmp{Kind: "gt"}
 	case 3:
 		if flavour == 0 || g.Chance(10) {
@@ -108,7 +118,25 @@ func (p *planner) next(r *runner) *Step {
 	if g.Chance(p.sortPct) {
 		return mut(Step{Op: "sort", Cmp: genCmp(g, p.flavour)})
 	}
-	switch g.Pick(26, 14, 8, 10, 6, 6, 6, 6, 5, 3, 3, 3, 2) {
+	if g.Chance(5) {
+		if g.Chance(20) {
+			return &Step{Op: "insbad"}
+		}
+		// keys that are not positive integers: fractions, +-inf, 0, negatives, strings; rarely a huge
+		// integer (leaves the list domain: only the implementation model is compared from there on)
+		ks := []tv.V{tv.Num(0.5), tv.Num(2.5), tv.Num(7.25), tv.Num(-1.5), tv.Num(math.Inf(1)), tv.Num(math.Inf(-1)), tv.Int(0), tv.Int(-3),
+			tv.Str("x"), tv.Str("1"), tv.Num(float64(n) + 1.5), tv.Bool(true)}
+		k := ks[g.Intn(len(ks))]
+		if g.Chance(10) {
+			k = []tv.V{tv.Int(100000000), tv.Int(67108864), tv.Num(1e300)}[g.Intn(3)]
+		}
+		v := val()
+		if g.Chance(25) {
+			v = tv.Nil()
+		}
+		return mut(Step{Op: "assignk", K: vp(k), V: vp(v)})
+	}
+	switch g.Pick(26, 14, 8, 10, 6, 6, 6, 6, 5, 3, 5, 3, 2) {
 	case 0:
 		return mut(Step{Op: "ins2", V: vp(val())})
 	case 1:
@@ -118,6 +146,9 @@ func (p *planner) next(r *runner) *Step {
 	case 3:
 		if n == 0 {
 			return mut(Step{Op: "rem1"})
+		}
+		if g.Chance(15) {
+			return mut(Step{Op: "rem2", I: zp([]int64{0, -1, n + 1, n + 2}[g.Intn(4)])})
 		}
 		return mut(Step{Op: "rem2", I: zp(int64(g.Range(1, int(n))))})
 	case 4:
